@@ -158,6 +158,7 @@ func NewRun(property, tier string) *Run {
 		r.ReplayStream = rs
 		r.ReplayIndex, _ = strconv.ParseUint(os.Getenv("VERIF_REPLAY_INDEX"), 10, 64)
 	}
+	sweepStaleScratch()
 	r.Scratch = filepath.Join("/var/tmp", fmt.Sprintf("verif-%s-%d", property, os.Getpid()))
 	os.RemoveAll(r.Scratch)
 	if err := os.MkdirAll(r.Scratch, 0o755); err != nil {
@@ -167,6 +168,22 @@ func NewRun(property, tier string) *Run {
 }
 
 func (r *Run) Cleanup() { os.RemoveAll(r.Scratch) }
+
+// sweepStaleScratch removes scratch trees of check processes that no longer
+// exist (killed runs cannot clean up after themselves).
+func sweepStaleScratch() {
+	dirs, _ := filepath.Glob("/var/tmp/verif-C??-*")
+	for _, d := range dirs {
+		k := strings.LastIndex(d, "-")
+		pid, err := strconv.Atoi(d[k+1:])
+		if err != nil || pid <= 0 {
+			continue
+		}
+		if _, err := os.Stat(fmt.Sprintf("/proc/%d", pid)); os.IsNotExist(err) {
+			os.RemoveAll(d)
+		}
+	}
+}
 
 func (r *Run) Quick() bool { return r.Tier != "thorough" }
 
@@ -271,7 +288,7 @@ func (r *Run) Require(key string, min int64) {
 
 // Finish writes the evidence file, prints verdict lines and exits.
 func (r *Run) Finish(rule string, evaluationsKey, distinctKey string) {
-	defer r.Cleanup()
+	// (os.Exit does not run deferred calls: clean up explicitly before every exit)
 	cov := r.Coverage
 	cov["rule"] = rule
 	if _, ok := cov["evaluations"]; !ok {
@@ -323,16 +340,19 @@ func (r *Run) Finish(rule string, evaluationsKey, distinctKey string) {
 			fmt.Printf("VIOLATION property=%s replay=%s\n", r.Property, p)
 			fmt.Printf("  what: %s\n", v.What)
 		}
+		r.Cleanup()
 		os.Exit(1)
 	}
 	if len(r.Inconcl) > 0 {
 		for _, s := range r.Inconcl {
 			fmt.Printf("INCONCLUSIVE property=%s %s\n", r.Property, s)
 		}
+		r.Cleanup()
 		os.Exit(2)
 	}
 	fmt.Printf("OK property=%s tier=%s seed=%d evaluations=%v distinct_nontrivial=%v wall=%.1fs\n",
 		r.Property, r.Tier, r.Seed, cov["evaluations"], cov["distinct_nontrivial"], ev.WallS)
+	r.Cleanup()
 	os.Exit(0)
 }
 
